@@ -2,6 +2,8 @@ package checks
 
 import (
 	"fmt"
+	"github.com/nuetzliches/hookaido/internal/verifhook"
+	"io"
 	"net/http"
 	"sort"
 	"strconv"
@@ -258,6 +260,35 @@ func c09Reload(c *vlib.Ctx) {
 			}
 		}
 		send("R", "replay_after_"+kind)
+		// a signed request that is still uploading its body while a reload lands:
+		// whichever authenticator verifies it, its nonce must be remembered afterwards
+		{
+			nonce := "U"
+			body := []byte("b-" + nonce)
+			req := signedReq("topsecret", "/signed", c08T0.Unix(), nonce, body)
+			pr, pw := io.Pipe()
+			req.Body = pr
+			req.ContentLength = int64(len(body))
+			before := verifhook.Hits()["ingress.after_resolve"]
+			done := make(chan l2.Resp, 1)
+			go func() { done <- l2.Do(a.Ingress, req) }()
+			_, _ = pw.Write(body[:1])
+			for w := 0; w < 2000 && verifhook.Hits()["ingress.after_resolve"] == before; w++ {
+				time.Sleep(100 * time.Microsecond) // until the handler has resolved the route and waits for the body
+			}
+			time.Sleep(200 * time.Microsecond)
+			if kind == "reload_changed_file" {
+				_ = a.WriteConfig(mk("/extra3 { queue { backend memory }\n pull { path /pull/x3 } }\n"))
+			}
+			a.Reload()
+			_, _ = pw.Write(body[1:])
+			_ = pw.Close()
+			resp := <-done
+			obs = append(obs, nonceObs{Nonce: nonce, TS: c08T0.Unix(), Arrival: clock.NowNS(), Accepted: resp.Status == 202, Tag: "upload_spanning_reload"})
+			send(nonce, "replay_after_upload_spanning_reload")
+			send(nonce, "second_replay_after_upload_spanning_reload")
+			c.Count("uploads_spanning_a_reload", 1)
+		}
 		send("fresh", "fresh_after_"+kind)
 		c.Count("evaluations", int64(len(obs)))
 		c.Count("reload_trials", 1)
